@@ -187,6 +187,9 @@ statechart:
             action: |
               n = n + 1
               box.append(n)
+              hits['ping'] += 1
+              ring.append(n)
+              bag.append(n)
             contract:
               - before: active('alive')
               - after: n == __old__.n + 1
@@ -272,9 +275,25 @@ def sh_apply(it, op, meta):
             repr(sorted((k, v) for k, v in it.context.items() if not callable(v))), tuple(meta_sig(meta)))
 
 
+class Bag(list):
+    """a container subclass whose constructor does not take the usual argument"""
+
+    def __init__(self):
+        super().__init__()
+
+
+def exotic_context():
+    # values a user may well keep in the context: container subclasses from the standard library and a home-made one
+    b = Bag()
+    b.append(1)
+    return {'hits': collections.defaultdict(int), 'order': collections.OrderedDict(a=1), 'count': collections.Counter('ab'),
+            'ring': collections.deque([1, 2], maxlen=3), 'bag': b, 'frozen': frozenset({1}), 'pair': (1, [2])}
+
+
 def sh_build(name, hist, ignore):
     sc, _ = shipped(name)
-    it = Interpreter(sc, ignore_contract=ignore)
+    it = Interpreter(sc, ignore_contract=ignore,
+                     initial_context=exotic_context() if name.startswith('timed') else None)
     meta = []
     it.attach(meta.append)
     it.execute_once()
@@ -358,7 +377,15 @@ def run(tier, seed):
                                            {'check': 'C09', 'task': schemes._jsonable(r['task']), **v}))
     roots = []
     for name in SHIPPED:
-        it, _ = sh_build(name, (), False)
+        try:
+            it, _ = sh_build(name, (), False)
+            sh_build(name, (), True)
+        except Exception as e:
+            viols.append(harness.Violation(
+                'C09:shipped:' + name, 'C09 chart %s: the interpreter cannot even be started (contracts on, then off): '
+                '%s: %s' % (name, type(e).__name__, str(e)[:150]),
+                {'check': 'C09', 'chart': name, 'hist': [], 'op': ['start'], 'detail': '%s: %s' % (type(e).__name__, e)}))
+            continue
         roots.append(((name, sh_key(it)), (name, ())))
     sagg = harness.level_bfs(sh_expand, roots, SHIPPED_DEPTH[tier])
     for v in sorted(sagg.violations, key=lambda v: len(v['hist'])):
